@@ -300,6 +300,19 @@ func (hp *hPlugin) callOutcome(seqNr uint64, prev llo.Outcome, aos []types.Attri
 	if err != nil {
 		return llo.Outcome{}, nil, resErr("decode-result", err)
 	}
+	// The monitors judge decoded outcomes; so what the repository's decoder hands out must be everything the bytes
+	// hold.  Counted against the generated protobuf message, read here without the repository's decode helpers.
+	if msg, merr := cdcOutcomeMsgJ(int(hp.p.ProtocolVersion), outB); merr == nil {
+		nAggs := 0
+		for _, m := range o.StreamAggregates {
+			nAggs += len(m)
+		}
+		if len(jArr(msg["aggs"])) != nAggs || len(jArr(msg["defs"])) != len(o.ChannelDefinitions) || len(jArr(msg["va"])) != len(o.ValidAfterNanoseconds) ||
+			jStr(msg["stage"]) != string(o.LifeCycleStage) {
+			return llo.Outcome{}, nil, J{"ok": nil, "_inconsistent": fmt.Sprintf("the outcome bytes hold %d aggregates, %d definitions, %d validity starts, stage %q; the decoder returns %d, %d, %d, %q",
+				len(jArr(msg["aggs"])), len(jArr(msg["defs"])), len(jArr(msg["va"])), jStr(msg["stage"]), nAggs, len(o.ChannelDefinitions), len(o.ValidAfterNanoseconds), o.LifeCycleStage)}
+		}
+	}
 	return o, outB, nil
 }
 
